@@ -14,7 +14,8 @@
 EXTENDS Naturals, Sequences, FiniteSets, TLC, Json
 
 CONSTANTS
-    SenderOps,    \* [sender -> sequence of ops]; op \in {"send", "try", "block0", "blockInf"}
+    SenderOps,    \* [sender -> sequence of ops]; op \in {"send", "try", "block0", "blockInf", "weCb"}
+                  \*  weCb: a raw when_empty with an observed callback (at most one per sender)
     FlusherOps,   \* [flusher -> "flush0" | "flushInf" | "flushTokio" | "cbPanic" | "cbPark"]
                   \*  flushTokio: the async tokio::flush (no timeout); cbPark: a raw when_flushed whose
                   \*  callback, when the receiver runs it, blocks until the environment lets it return
@@ -36,7 +37,8 @@ VARIABLES
     (* the lock-protected State *)
     pending,      \* next_batch.channel        : sequence of items
     pendFlush,    \* next_batch.watchers.on_flush : sequence of flusher ids
-    pendTake,     \* next_batch.watchers.on_take  : sequence of sender ids
+    pendTake,     \* next_batch.watchers.on_take  : sequence of <<"tr", sender>> (a blocked sender's
+                  \*                                 trigger) or <<"cb", sender>> (a raw callback)
     isOpen, isInBatch,
     (* the receiver's locals *)
     rpc,          \* "lock" | "inflight" | "retryWait" | "idle" | "inCb" | "done" | "dead"
@@ -52,6 +54,7 @@ VARIABLES
     sidx,         \* [sender -> index of the current op]
     sretry,       \* [sender -> "no" | "held" | "lost"]: blocked sender; does it still hold its item
     sfired,       \* [sender -> its when_empty trigger fired]
+    ecb,          \* [sender -> "no" | "reg" | "fired"]: its raw when_empty callback
     fpc,          \* [flusher -> "start" | "wait" | "done"]
     ffired,       \* [flusher -> "no" | "yes" | "yesDead"]  (fired while the receiver was gone)
     senderAlive,
@@ -70,7 +73,7 @@ VARIABLES
     hist
 
 state == <<pending, pendFlush, pendTake, isOpen, isInBatch, rpc, cur, curFlush, rem, rcont, cbRest, retries,
-           retryDelay, idleDelay, spc, sidx, sretry, sfired, fpc, ffired, senderAlive,
+           retryDelay, idleDelay, spc, sidx, sretry, sfired, ecb, fpc, ffired, senderAlive,
            mTrunc, mBlocked, mProcessed, mFailed, mPanicked, mRetry,
            accepted, status, taken, calls, fsnap, fret, sres, fails>>
 vars == <<state, hist>>
@@ -104,6 +107,7 @@ Init ==
     /\ sidx = [s \in Senders |-> 1]
     /\ sretry = [s \in Senders |-> "no"]
     /\ sfired = [s \in Senders |-> FALSE]
+    /\ ecb = [s \in Senders |-> "no"]
     /\ fpc = [f \in Flushers |-> "start"]
     /\ ffired = [f \in Flushers |-> "no"]
     /\ senderAlive = TRUE
@@ -145,7 +149,7 @@ Send(s) ==
                              trunc |-> mTrunc'])
     /\ NextOp(s)
     /\ UNCHANGED <<pendFlush, pendTake, isOpen, isInBatch, rpc, cur, curFlush, rem, rcont, cbRest, retries,
-                   retryDelay, idleDelay, sretry, sfired, fpc, ffired, senderAlive, mBlocked,
+                   retryDelay, idleDelay, sretry, ecb, sfired, fpc, ffired, senderAlive, mBlocked,
                    mProcessed, mFailed, mPanicked, mRetry, taken, calls, fsnap, fret, fails>>
 
 \* Sender::try_send, also the first and the repeated step of blocking_send (send_or_wait)
@@ -181,20 +185,36 @@ TrySend(s) ==
     /\ UNCHANGED <<pendFlush, pendTake, isOpen, isInBatch, rpc, cur, curFlush, rem, rcont, cbRest, retries,
                    retryDelay, idleDelay, sfired, fpc, ffired, senderAlive, mTrunc,
                    mProcessed, mFailed, mPanicked, mRetry, taken, calls, fsnap, fret, fails>>
+    /\ UNCHANGED ecb
 
 \* Sender::when_empty as used by blocking_send
 WhenEmpty(s) ==
     /\ senderAlive /\ spc[s] = "whenEmpty"
     /\ IF pending = <<>>
        THEN /\ sfired' = [sfired EXCEPT ![s] = TRUE] /\ pendTake' = pendTake
-       ELSE /\ pendTake' = Append(pendTake, s) /\ sfired' = sfired
+       ELSE /\ pendTake' = Append(pendTake, <<"tr", s>>) /\ sfired' = sfired
     /\ spc' = [spc EXCEPT ![s] = "wait"]
     /\ Log(s, "WhenEmpty", [snap |-> Snap(pending, pendFlush, pendTake', isOpen, isInBatch),
                             immediate |-> pending = <<>>])
     /\ UNCHANGED <<pending, pendFlush, isOpen, isInBatch, rpc, cur, curFlush, rem, rcont, cbRest, retries,
-                   retryDelay, idleDelay, sidx, sretry, fpc, ffired, senderAlive,
+                   retryDelay, idleDelay, sidx, sretry, ecb, fpc, ffired, senderAlive,
                    mTrunc, mBlocked, mProcessed, mFailed, mPanicked, mRetry,
                    accepted, status, taken, calls, fsnap, fret, sres, fails>>
+
+\* a raw Sender::when_empty with an observed callback; the caller does not wait for it
+WhenEmptyCb(s) ==
+    /\ senderAlive /\ spc[s] = "op" /\ Op(s) = "weCb"
+    /\ IF pending = <<>>
+       THEN /\ ecb' = [ecb EXCEPT ![s] = "fired"] /\ pendTake' = pendTake
+       ELSE /\ pendTake' = Append(pendTake, <<"cb", s>>) /\ ecb' = [ecb EXCEPT ![s] = "reg"]
+    /\ sres' = [sres EXCEPT ![s] = Append(@, "registered")]
+    /\ NextOp(s)
+    /\ Log(s, "WhenEmptyCb", [snap |-> Snap(pending, pendFlush, pendTake', isOpen, isInBatch),
+                              immediate |-> pending = <<>>])
+    /\ UNCHANGED <<pending, pendFlush, isOpen, isInBatch, rpc, cur, curFlush, rem, rcont, cbRest, retries,
+                   retryDelay, idleDelay, sretry, sfired, fpc, ffired, senderAlive,
+                   mTrunc, mBlocked, mProcessed, mFailed, mPanicked, mRetry,
+                   accepted, status, taken, calls, fsnap, fret, fails>>
 
 \* Trigger::wait_timeout returning because the trigger fired; a sender whose item was
 \* swallowed by a closed channel reports the error now, the others try again
@@ -212,6 +232,7 @@ SendWake(s) ==
                    retries, retryDelay, idleDelay, fpc, ffired, senderAlive,
                    mTrunc, mBlocked, mProcessed, mFailed, mPanicked, mRetry,
                    accepted, status, taken, calls, fsnap, fret, fails>>
+    /\ UNCHANGED ecb
 
 \* Sender::when_flushed
 WhenFlushed(f) ==
@@ -226,7 +247,7 @@ WhenFlushed(f) ==
     /\ fsnap' = [fsnap EXCEPT ![f] = SeqSet(accepted)]
     /\ fpc' = [fpc EXCEPT ![f] = IF FlusherOps[f] \in {"cbPanic", "cbPark"} THEN "done" ELSE "wait"]
     /\ UNCHANGED <<pending, pendTake, isOpen, isInBatch, rpc, cur, curFlush, rem, rcont, cbRest, retries,
-                   retryDelay, idleDelay, spc, sidx, sretry, sfired, senderAlive,
+                   retryDelay, idleDelay, spc, sidx, sretry, ecb, sfired, senderAlive,
                    mTrunc, mBlocked, mProcessed, mFailed, mPanicked, mRetry,
                    accepted, status, taken, calls, fret, sres, fails>>
 
@@ -238,7 +259,7 @@ FlushRet(f) ==
     /\ fpc' = [fpc EXCEPT ![f] = "done"]
     /\ Log(f, "FlushRet", [ret |-> ffired[f] # "no"])
     /\ UNCHANGED <<pending, pendFlush, pendTake, isOpen, isInBatch, rpc, cur, curFlush, rem, rcont, cbRest,
-                   retries, retryDelay, idleDelay, spc, sidx, sretry, sfired, ffired,
+                   retries, retryDelay, idleDelay, spc, sidx, sretry, ecb, sfired, ffired,
                    senderAlive, mTrunc, mBlocked, mProcessed, mFailed, mPanicked, mRetry,
                    accepted, status, taken, calls, fsnap, sres, fails>>
 
@@ -250,14 +271,15 @@ DropSender ==
     /\ senderAlive' = FALSE /\ isOpen' = FALSE
     /\ Log("env", "DropSender", [snap |-> Snap(pending, pendFlush, pendTake, FALSE, isInBatch)])
     /\ UNCHANGED <<pending, pendFlush, pendTake, isInBatch, rpc, cur, curFlush, rem, rcont, cbRest, retries,
-                   retryDelay, idleDelay, spc, sidx, sretry, sfired, fpc, ffired,
+                   retryDelay, idleDelay, spc, sidx, sretry, ecb, sfired, fpc, ffired,
                    mTrunc, mBlocked, mProcessed, mFailed, mPanicked, mRetry,
                    accepted, status, taken, calls, fsnap, fret, sres, fails>>
 
 -----------------------------------------------------------------------------
 (* Receiver side: Receiver::exec *)
 
-FireTake(sf, ws) == [s \in Senders |-> IF s \in SeqSet(ws) THEN TRUE ELSE sf[s]]
+FireTake(sf, ws) == [s \in Senders |-> IF <<"tr", s>> \in SeqSet(ws) THEN TRUE ELSE sf[s]]
+FireEcb(ec, ws) == [s \in Senders |-> IF <<"cb", s>> \in SeqSet(ws) THEN "fired" ELSE ec[s]]
 
 \* notify_on_flush runs the watchers in registration order on the receiver's thread.  A
 \* cbPark callback blocks there: the watchers up to and including it are notified, the rest
@@ -288,6 +310,7 @@ NotifyThen(ws, to) ==
 RecvTake ==
     /\ rpc = "lock"
     /\ sfired' = FireTake(sfired, pendTake)
+    /\ ecb' = FireEcb(ecb, pendTake)
     /\ pending' = <<>> /\ pendFlush' = <<>> /\ pendTake' = <<>>
     /\ IF pending # <<>>
        THEN /\ isInBatch' = TRUE
@@ -317,7 +340,7 @@ CbReturn ==
     /\ NotifyThen(cbRest, rcont)
     /\ Log("recv", "CbReturn", [wait |-> IF rpc' = "idle" THEN idleDelay' ELSE 0])
     /\ UNCHANGED <<pending, pendFlush, pendTake, isOpen, isInBatch, cur, curFlush, rem, retries,
-                   retryDelay, spc, sidx, sretry, sfired, fpc, senderAlive,
+                   retryDelay, spc, sidx, sretry, ecb, sfired, fpc, senderAlive,
                    mTrunc, mBlocked, mProcessed, mFailed, mPanicked, mRetry,
                    accepted, status, taken, calls, fsnap, fret, sres, fails>>
 
@@ -326,7 +349,7 @@ IdleWake ==
     /\ rpc' = "lock"
     /\ Log("recv", "IdleWake", [x |-> 0])
     /\ UNCHANGED <<pending, pendFlush, pendTake, isOpen, isInBatch, cur, curFlush, rem, rcont, cbRest,
-                   retries, retryDelay, idleDelay, spc, sidx, sretry, sfired, fpc, ffired, senderAlive,
+                   retries, retryDelay, idleDelay, spc, sidx, sretry, ecb, sfired, fpc, ffired, senderAlive,
                    mTrunc, mBlocked, mProcessed, mFailed, mPanicked, mRetry,
                    accepted, status, taken, calls, fsnap, fret, sres, fails>>
 
@@ -378,7 +401,7 @@ AttemptEnd(outcome, r) ==
                                   wait |-> IF rpc' = "retryWait" THEN retryDelay' ELSE 0,
                                   m |-> <<mProcessed', mFailed', mPanicked'>>])
     /\ UNCHANGED <<pending, pendFlush, pendTake, isOpen, isInBatch, spc, sidx,
-                   sretry, sfired, fpc, senderAlive, mTrunc, mBlocked, mRetry,
+                   sretry, ecb, sfired, fpc, senderAlive, mTrunc, mBlocked, mRetry,
                    accepted, taken, calls, fsnap, fret, sres>>
 
 \* the retry back-off elapsed: on_batch is called again with exactly the remainder
@@ -391,7 +414,7 @@ RetryWake ==
     /\ rpc' = "inflight"
     /\ Log("recv", "RetryWake", [batch |-> rem])
     /\ UNCHANGED <<pending, pendFlush, pendTake, isOpen, isInBatch, curFlush, rcont, cbRest, retries,
-                   retryDelay, idleDelay, spc, sidx, sretry, sfired, fpc, ffired, senderAlive,
+                   retryDelay, idleDelay, spc, sidx, sretry, ecb, sfired, fpc, ffired, senderAlive,
                    mTrunc, mBlocked, mProcessed, mFailed, mPanicked,
                    accepted, taken, fsnap, fret, sres, fails>>
 
@@ -404,7 +427,7 @@ Kill ==
     /\ cur' = <<>> /\ rem' = <<>> /\ curFlush' = <<>>
     /\ Log("recv", "Kill", [snap |-> Snap(pending, pendFlush, pendTake, FALSE, isInBatch)])
     /\ UNCHANGED <<pending, pendFlush, pendTake, isInBatch, rcont, cbRest, retries, retryDelay, idleDelay,
-                   spc, sidx, sretry, sfired, fpc, ffired, senderAlive,
+                   spc, sidx, sretry, ecb, sfired, fpc, ffired, senderAlive,
                    mTrunc, mBlocked, mProcessed, mFailed, mPanicked, mRetry,
                    accepted, taken, calls, fsnap, fret, sres, fails>>
 
@@ -416,7 +439,7 @@ RecvNext ==
           AttemptEnd(o, r)
 
 Next ==
-    \/ \E s \in Senders : Send(s) \/ TrySend(s) \/ WhenEmpty(s) \/ SendWake(s)
+    \/ \E s \in Senders : Send(s) \/ TrySend(s) \/ WhenEmpty(s) \/ WhenEmptyCb(s) \/ SendWake(s)
     \/ \E f \in Flushers : WhenFlushed(f) \/ FlushRet(f)
     \/ DropSender
     \/ RecvNext
@@ -426,7 +449,7 @@ Spec == Init /\ [][Next]_vars
 \* the receiver is a thread / task that is always eventually scheduled
 FairSpec == Spec /\ WF_vars(RecvNext)
              /\ \A f \in Flushers : WF_vars(FlushRet(f))
-             /\ \A s \in Senders : WF_vars(Send(s) \/ TrySend(s) \/ WhenEmpty(s) \/ SendWake(s))
+             /\ \A s \in Senders : WF_vars(Send(s) \/ TrySend(s) \/ WhenEmpty(s) \/ WhenEmptyCb(s) \/ SendWake(s))
              /\ WF_vars(DropSender)
 
 -----------------------------------------------------------------------------
@@ -489,13 +512,14 @@ DrainClean == [](rpc = "done" => /\ pending = <<>> /\ pendFlush = <<>> /\ pendTa
                                  /\ cur = <<>> /\ curFlush = <<>> /\ cbRest = <<>>)
 AllProcessed == \A i \in Items : (status[i] \in {"pending", "inflight", "retrywait"})
                                     ~> (status[i] \in {"done", "trunc", "orphan"})
+EmptyLive == \A s \in Senders : (ecb[s] = "reg") ~> (ecb[s] = "fired" \/ ~Alive)
 BlockedSenderWakes == \A s \in Senders : (spc[s] = "wait") ~> (spc[s] # "wait" \/ ~Alive)
 
 -----------------------------------------------------------------------------
 (* spec -> code: one REPLAY line per transition *)
 ReplayLine ==
     PrintT(<<"REPLAY", ToJson([steps |-> hist',
-        fin |-> [sres |-> sres', fret |-> fret', ffired |-> ffired',
+        fin |-> [sres |-> sres', fret |-> fret', ffired |-> ffired', ecb |-> ecb',
                  terminal |-> (rpc' = "done" /\ ~senderAlive'),
                  metrics |-> [queue_full_truncated |-> mTrunc', queue_full_blocked |-> mBlocked',
                               queue_batch_processed |-> mProcessed', queue_batch_failed |-> mFailed',
